@@ -16,6 +16,7 @@ META = {
                     ],
     'trusted_base': ['rustc nightly MIR construction', 'mirfacts exporter', 'rules/c13.py, sym.py, facts.py'],
 }
+META['explanation'] += ' (R13.7) the fast-path length form as a function of the first length byte, folded for all 256 values: two bytes exactly when bit 7 is set, one-byte lengths 2..0x7f all accepted.'
 
 LINK_READ = 'model::link::Link::<S>::read'
 READ_PAYLOAD = 'core::tpkt::Client::<S>::read_payload'
